@@ -92,6 +92,7 @@ def lean_ty(t):
     if t == SLICE: return "(Nat × Nat)"
     if t == XSLICE: return "(List (Option V.Elem))"
     if t == VIT: return "V.It"
+    if t == "keyfn": return "(V.Elem → Nat)"
     if t == OVECREF: return "V.VS"
     if t == ESLICE: return "(List V.Elem)"
     if t == VECSNAP: return "V.VS"
@@ -278,6 +279,8 @@ FUNCS[-1].builds_vec = True
 FUNCS[-2].builds_vec = True
 FUNCS[-1].returns_param = None
 FUNCS += [
+    Fn("dedup_by_key", "vec", "st", file=VEC_RS, group="VecCopy", anchor=VEC_IMPL, lean="vec_dedup_by_key", ptypes={"key": "keyfn"}),
+    Fn("dedup", "vec", "st", file=VEC_RS, group="VecCopy", anchor="impl<'bump, T: 'bump + PartialEq> Vec<'bump, T>", lean="vec_dedup"),
     Fn("split_off", "vec", "st", file=VEC_RS, group="VecCopy", anchor=VEC_IMPL, lean="vec_split_off", ret=VSVAL),
     Fn("append", "vec", "st", file=VEC_RS, group="VecCopy", anchor=VEC_IMPL, lean="vec_append", ptypes={"other": OVECREF}, ret=VSVAL),
     Fn("extend_from_slice", "vec", "st", file=VEC_RS, group="VecCopy", lean="vec_extend_from_slice", ptypes={"other": "elemslice"}),
@@ -1968,6 +1971,24 @@ class Tr:
             return self.E(args[0], env, K(lambda t, ty, env_: k(f"(RsV.arena_alloc_buf c {paren(t)}.size)", res(BUF), env_)))
         if self.fn.kind == "rvctor" and name == "cast" and not args:
             return self.E(recv, env, k)
+        if self.recv_is_vec(recv, env) and name == "dedup_by" and len(args) == 1 and args[0][0] == "closure" and len(args[0][1]) == 2 \
+                and all(q[0] == "pid" for q in args[0][1]) and ("vec", "dedup_by") in FN_BY_KIND:
+            # `self.dedup_by(|a, b| key(a) == key(b))` / `self.dedup_by(|a, b| a == b)`: the closure handed on is built from a pure
+            # key function (a parameter of type `V.Elem → Nat`) or from `PartialEq` on the elements (equality of their values)
+            a_, b_ = args[0][1][0][1], args[0][1][1][1]
+            body = args[0][2]
+            cb = None
+            if body[0] == "bin" and body[1] == "==":
+                l, r = body[2], body[3]
+                if l == ("path", [a_]) and r == ("path", [b_]):
+                    cb = "(fun _ a_ b_ => some (a_.val == b_.val))"
+                elif l[0] == "call" and r[0] == "call" and l[1] == r[1] and l[1][0] == "path" and len(l[1][1]) == 1 \
+                        and l[1][1][0] in env.d and env.d[l[1][1][0]][1] == "keyfn" and l[2] == [("path", [a_])] and r[2] == [("path", [b_])]:
+                    kf = env.d[l[1][1][0]][0]
+                    cb = f"(fun _ a_ b_ => some ({kf} a_ == {kf} b_))"
+            if cb is None:
+                raise Untranslatable("dedup_by with this closure")
+            return self.bind_call(f"Gen.Fn.vec_dedup_by c {cb}", "st", k, env, UNIT)
         if self.recv_is_vec(recv, env) and ("vec", name) in FN_BY_KIND:
             return self.args(args, env, lambda pa, env_: self.call_fn(FN_BY_KIND[("vec", name)], None, pa, env_, k))
         if recv[0] == "field" and recv[2] == "buf" and self.recv_is_vec(recv[1], env) and ("rawvec", name) in FN_BY_KIND:
